@@ -53,7 +53,8 @@ struct C02Delivery : Monitor {
 	std::vector<Del> del_s, del_c;          // written at server / at client
 	Bytes pend_c; bool have_pend = false; uint64_t pend_t = 0;
 	uint64_t dropped_c = 0, dropped_s = 0;
-	C02Delivery(World *w, bool a, bool b) : w(w), clean_a(a), recovery_b(b) {}
+	std::string prop = "C02";       // the clean-path oracle is also the stream clause of C11/C16
+	C02Delivery(World *w, bool a, bool b, const std::string &pr = "C02") : w(w), clean_a(a), recovery_b(b), prop(pr) {}
 
 	void on_tun_read(Task &t, const Bytes &p) override
 	{
@@ -126,22 +127,37 @@ struct C02Delivery : Monitor {
 		std::vector<const Bytes *> all, got;
 		size_t must = 0;
 		for (auto &a : acc) if (a.fits) { all.push_back(&a.pkt); if (a.t + D <= end) must = all.size(); }
-		for (auto &d : del) if (!nofit.count(d.pkt)) got.push_back(&d.pkt);
+		std::set<Bytes> seen_once;
+		for (auto &d : del) if (!nofit.count(d.pkt)) {
+			// under re-delivery faults (C16) a re-answered query may make the receiver write a packet again: repeats are
+			// C01-legal and not what C16 is about; loss and reordering still are
+			if (prop != "C02" && !seen_once.insert(d.pkt).second) { w->probes["c16.repeat_writes"]++; continue; }
+			got.push_back(&d.pkt);
+		}
 		w->probes[std::string("c02a.must.") + dir] = (int64_t)must;
+		if (prop != "C02" && dir[0] == 's' && w->probes["c16.client_discarded_nonrecent"] > 0) {
+			// The client legitimately discards answers whose id is not among its last three queries (client.c, "non-recent stuff");
+			// duplicate answers caused by re-delivered queries can push a data-carrying answer out of that window. That loss is the
+			// client's reaction to duplication, not the server processing a query twice: only order is demanded in such runs.
+			size_t k = 0;
+			for (auto *g : got) { while (k < all.size() && *all[k] != *g) k++; if (k == all.size()) { w->S.violate(prop, "clean.order", std::string(dir) + ": delivered packets are not a subsequence of the accepted ones"); return; } k++; }
+			w->probes["c16.down_loss_excused_runs"]++;
+			return;
+		}
 		size_t n = std::min(all.size(), got.size());
 		for (size_t i = 0; i < n; i++) if (*all[i] != *got[i]) {
 			char b[220]; snprintf(b, sizeof b, "%s: position %zu expected ser=%llu got ser=%llu (accepted %zu, delivered %zu)", dir, i,
 					      (unsigned long long)pkt_serial(*all[i]), (unsigned long long)pkt_serial(*got[i]), all.size(), got.size());
 			bool dup = false; for (size_t j = 0; j < i; j++) if (*got[j] == *got[i]) dup = true;
-			w->S.violate("C02", dup ? "clean.duplicate" : "clean.order_or_loss", b);
+			w->S.violate(prop, dup ? "clean.duplicate" : "clean.order_or_loss", b);
 			return;
 		}
 		if (got.size() > all.size()) {
 			char b[200]; snprintf(b, sizeof b, "%s: accepted %zu fitting packets, delivered %zu; first extra ser=%llu", dir, all.size(), got.size(), (unsigned long long)pkt_serial(*got[n]));
-			w->S.violate("C02", "clean.extra", b);
+			w->S.violate(prop, "clean.extra", b);
 		} else if (got.size() < must) {
 			char b[200]; snprintf(b, sizeof b, "%s: %zu fitting packets accepted more than 40 s before the end, only %zu delivered; first missing ser=%llu", dir, must, got.size(), (unsigned long long)pkt_serial(*all[n]));
-			w->S.violate("C02", "clean.lost", b);
+			w->S.violate(prop, "clean.lost", b);
 		}
 	}
 
@@ -183,7 +199,7 @@ struct C02Delivery : Monitor {
 		w->probes["c02.del_s"] = (int64_t)del_s.size(); w->probes["c02.del_c"] = (int64_t)del_c.size();
 		if (w->S.capped) return;
 		if (clean_a) {
-			for (auto &t : w->S.tasks) if (t->state == T_EXITED) { w->S.violate("C02", "clean.exit", t->name + " exited on a clean path"); return; }
+			for (auto &t : w->S.tasks) if (t->state == T_EXITED) { w->S.violate(prop, "clean.exit", t->name + " exited on a clean path"); return; }
 			cmp_clean("client->server", acc_c, del_s);
 			cmp_clean("server->client", acc_s, del_c);
 		}
@@ -199,7 +215,7 @@ struct C02Delivery : Monitor {
 		}
 	}
 };
-Monitor *mk_c02_delivery(World *w, bool a, bool b) { return new C02Delivery(w, a, b); }
+Monitor *mk_c02_delivery(World *w, bool a, bool b, const std::string &prop) { return new C02Delivery(w, a, b, prop); }
 
 // ================================================================== C10 + C14
 // Strict well-formedness of everything the real programs emit in DNS mode, and a
